@@ -1,0 +1,206 @@
+//go:build verif
+
+// Contracts for the verif build tag (comment-only; see /verif/DESIGN.md §4).
+package intermediate
+
+// ---------------------------------------------------------------------------
+// Expiry priority queue: the five heap.Interface methods (C06). container/heap
+// is assumed (models/heap.spec) given that these meet their contracts.
+// ---------------------------------------------------------------------------
+
+//@ pure minExp(it *ItemToExpire) int = it.activeExpireTime < it.inactiveExpireTime ? it.activeExpireTime : it.inactiveExpireTime
+//@ pure itemsNN(pq []*ItemToExpire) bool = forall i in [0, len(pq)): pq[i] != nil
+
+//@ func (pq TimeToExpirePriorityQueue) Len() (r)
+//@   ensures len: r == len(pq)
+//@
+//@ func (pq TimeToExpirePriorityQueue) minExpireTime(i) (r)
+//@   requires idx: 0 <= i && i < len(pq) && pq[i] != nil
+//@   ensures  min: r == minExp(pq[i])
+//@
+//@ func (pq TimeToExpirePriorityQueue) Less(i, j) (r)
+//@   requires idx: 0 <= i && i < len(pq) && 0 <= j && j < len(pq) && pq[i] != nil && pq[j] != nil
+//@   ensures  less: r <==> minExp(pq[i]) < minExp(pq[j])
+//@
+//@ func (pq TimeToExpirePriorityQueue) Swap(i, j) ()
+//@   requires idx: 0 <= i && i < len(pq) && 0 <= j && j < len(pq) && pq[i] != nil && pq[j] != nil && (i != j ==> pq[i] != pq[j])
+//@   ensures  swap: pq[i] == old(pq[j]) && pq[j] == old(pq[i]) && pq[i].index == i && pq[j].index == j
+//@   ensures  rest: forall k in [0, len(pq)): k != i && k != j ==> pq[k] == old(pq[k])
+//@   modifies pq[*], pq[i].index, pq[j].index
+//@
+//@ func (pq *TimeToExpirePriorityQueue) Push(x) ()
+//@   requires item: is(x, *ItemToExpire) && x.(*ItemToExpire) != nil
+//@   ensures  len:  len(*pq) == old(len(*pq)) + 1 && (*pq)[old(len(*pq))] == x.(*ItemToExpire) && x.(*ItemToExpire).index == old(len(*pq))
+//@   ensures  rest: forall k in [0, old(len(*pq))): (*pq)[k] == old((*pq)[k])
+//@   modifies *pq, (*pq)[*], x.(*ItemToExpire).index
+//@
+//@ func (pq *TimeToExpirePriorityQueue) Pop() (r)
+//@   requires nonempty: len(*pq) > 0 && (*pq)[len(*pq) - 1] != nil
+//@   ensures  len:  len(*pq) == old(len(*pq)) - 1 && is(r, *ItemToExpire) && r.(*ItemToExpire) == old((*pq)[len(*pq) - 1]) && r.(*ItemToExpire).index == 0 - 1
+//@   ensures  rest: forall k in [0, len(*pq)): (*pq)[k] == old((*pq)[k])
+//@   modifies *pq, (*pq)[len(*pq) - 1].index
+//@
+//@ func (pq TimeToExpirePriorityQueue) Peek() (r)
+//@   requires nonempty: len(pq) > 0
+//@   ensures  top: r == pq[0]
+
+//@ func (pq *TimeToExpirePriorityQueue) Update(item, flowKey, flowRecord, activeExpireTime, inactiveExpireTime) ()
+//@   requires q:    pqIdx(*pq) && item != nil && 0 <= item.index && item.index < len(*pq) && (*pq)[item.index] == item
+//@   ensures  set:  item.flowKey == flowKey && item.flowRecord == flowRecord && item.activeExpireTime == activeExpireTime && item.inactiveExpireTime == inactiveExpireTime
+//@   ensures  len:  len(*pq) == old(len(*pq))
+//@   ensures  idx:  pqIdx(*pq) && minAtRoot(*pq)
+//@   ensures  keep: forall j in [0, len(*pq)): 0 <= old((*pq)[j]).index && old((*pq)[j]).index < len(*pq) && (*pq)[old((*pq)[j]).index] == old((*pq)[j])
+//@   ensures  from: forall k in [0, len(*pq)): 0 <= oldIndex((*pq)[k]) && oldIndex((*pq)[k]) < len(*pq) && old(*pq)[oldIndex((*pq)[k])] == (*pq)[k]
+//@   modifies (*pq)[*], (*pq)[*].(*ItemToExpire).index, item.flowKey, item.flowRecord, item.activeExpireTime, item.inactiveExpireTime
+
+// ---------------------------------------------------------------------------
+// Aggregation process: map <-> queue representation invariant (C06), expiry scan (C06, C07)
+// ---------------------------------------------------------------------------
+
+//@ // itemOK: a queued item refers to a held flow, and that flow refers back to it
+//@ pure itemOK(a *AggregationProcess, it *ItemToExpire) bool = it.flowKey != nil && it.flowRecord != nil
+//@     && has(a.flowKeyRecordMap, mapkey(*it.flowKey)) && a.flowKeyRecordMap[mapkey(*it.flowKey)] == it.flowRecord
+//@     && it.flowRecord.PriorityQueueItem == it
+//@ // I1: every scheduled entry refers to a held flow;  I2: every held flow is scheduled
+//@ pure aggI1(a *AggregationProcess) bool = forall i in [0, len(a.expirePriorityQueue)): itemOK(a, a.expirePriorityQueue[i])
+//@ pure flowOK(a *AggregationProcess, k int) bool = a.flowKeyRecordMap[k] != nil && a.flowKeyRecordMap[k].PriorityQueueItem != nil
+//@     && 0 <= a.flowKeyRecordMap[k].PriorityQueueItem.index && a.flowKeyRecordMap[k].PriorityQueueItem.index < len(a.expirePriorityQueue)
+//@     && a.expirePriorityQueue[a.flowKeyRecordMap[k].PriorityQueueItem.index] == a.flowKeyRecordMap[k].PriorityQueueItem
+//@     && a.flowKeyRecordMap[k].PriorityQueueItem.flowKey != nil && mapkey(*a.flowKeyRecordMap[k].PriorityQueueItem.flowKey) == k
+//@ pure aggI2(a *AggregationProcess) bool = forall k: has(a.flowKeyRecordMap, k) ==> flowOK(a, k)
+//@ pure aggInv(a *AggregationProcess) bool = a != nil && a.flowKeyRecordMap != nil && pqIdx(a.expirePriorityQueue) && minAtRoot(a.expirePriorityQueue) && aggI1(a) && aggI2(a)
+
+//@ func (a *AggregationProcess) deleteFlowKeyFromMapWithoutLock(flowKey) (err)
+//@   requires a:   a != nil
+//@   ensures  ok:  (err == nil) <==> old(has(a.flowKeyRecordMap, mapkey(flowKey)))
+//@   ensures  del: !has(a.flowKeyRecordMap, mapkey(flowKey))
+//@   ensures  others: forall k: k != mapkey(flowKey) ==> has(a.flowKeyRecordMap, k) == old(has(a.flowKeyRecordMap, k)) && a.flowKeyRecordMap[k] == old(a.flowKeyRecordMap[k])
+//@   ensures  same: a.flowKeyRecordMap == old(a.flowKeyRecordMap)
+//@   modifies a.flowKeyRecordMap[*]
+
+//@ // retries: a held flow that is not ready was retried at most MaxRetries times (C07: bounded retry, then dropped)
+//@ pure aggRetry(a *AggregationProcess) bool = forall k: has(a.flowKeyRecordMap, k) ==> a.flowKeyRecordMap[k].waitForReadyToSendRetries <= MaxRetries
+//@ pure itemOf(a *AggregationProcess, k int) *ItemToExpire = a.flowKeyRecordMap[k].PriorityQueueItem
+
+//@ func (a *AggregationProcess) ForAllExpiredFlowRecordsDo(callback) (err)
+//@   requires inv:  aggInv(a) && aggRetry(a) && !a.mutex.held && !a.mutex.rheld && callback != nil
+//@   ensures  inv:  aggInv(a) && aggRetry(a)
+//@   ensures  lock: !a.mutex.held
+//@   ensures  alldue: err == nil ==> (forall i in [0, len(a.expirePriorityQueue)): minExp(a.expirePriorityQueue[i]) > $lastNow) || len(a.expirePriorityQueue) == 0
+//@   ensures  nonew: forall k: has(a.flowKeyRecordMap, k) ==> old(has(a.flowKeyRecordMap, k)) && a.flowKeyRecordMap[k] == old(a.flowKeyRecordMap[k])
+//@   ensures  removed: forall k: old(has(a.flowKeyRecordMap, k)) && !has(a.flowKeyRecordMap, k) && old(a.flowKeyRecordMap[k].ReadyToSend) ==> old(itemOf(a, k).inactiveExpireTime) <= $lastNow
+//@   ensures  kept: forall k: old(has(a.flowKeyRecordMap, k)) && old(a.flowKeyRecordMap[k].ReadyToSend) && old(itemOf(a, k).inactiveExpireTime) > $lastNow ==> has(a.flowKeyRecordMap, k)
+//@   ensures  rearm: err == nil ==> (forall k: has(a.flowKeyRecordMap, k) && a.flowKeyRecordMap[k].ReadyToSend && old(itemOf(a, k).activeExpireTime) <= $lastNow ==> itemOf(a, k).activeExpireTime == $lastNow + a.activeExpiryTimeout)
+//@   callpre functype:intermediate.FlowKeyRecordMapCallBack only_due: record.ReadyToSend && (pqItem.activeExpireTime <= currTime || pqItem.inactiveExpireTime <= currTime)
+//@   callpre functype:intermediate.FlowKeyRecordMapCallBack earliest: forall i in [0, len(a.expirePriorityQueue)): minExp(pqItem) <= minExp(a.expirePriorityQueue[i])
+//@   callpre functype:intermediate.FlowKeyRecordMapCallBack held: has(a.flowKeyRecordMap, mapkey(key)) && a.flowKeyRecordMap[mapkey(key)] == record
+//@   modifies *
+//@   loop 1 invariant inv:  aggInv(a) && aggRetry(a) && a.mutex.held && currTime == $lastNow
+//@   loop 1 invariant nonew: forall k: has(a.flowKeyRecordMap, k) ==> old(has(a.flowKeyRecordMap, k)) && a.flowKeyRecordMap[k] == old(a.flowKeyRecordMap[k])
+//@   loop 1 invariant same: forall k: has(a.flowKeyRecordMap, k) ==> itemOf(a, k) == old(itemOf(a, k)) && a.flowKeyRecordMap[k].ReadyToSend == old(a.flowKeyRecordMap[k].ReadyToSend)
+//@   loop 1 invariant inact: forall k: has(a.flowKeyRecordMap, k) && a.flowKeyRecordMap[k].ReadyToSend ==> itemOf(a, k).inactiveExpireTime == old(itemOf(a, k).inactiveExpireTime)
+//@   loop 1 invariant removed: forall k: old(has(a.flowKeyRecordMap, k)) && !has(a.flowKeyRecordMap, k) && old(a.flowKeyRecordMap[k].ReadyToSend) ==> old(itemOf(a, k).inactiveExpireTime) <= $lastNow
+//@   loop 1 invariant rearm: forall k: has(a.flowKeyRecordMap, k) && a.flowKeyRecordMap[k].ReadyToSend ==> itemOf(a, k).activeExpireTime == old(itemOf(a, k).activeExpireTime) || (old(itemOf(a, k).activeExpireTime) <= $lastNow && itemOf(a, k).activeExpireTime == $lastNow + a.activeExpiryTimeout)
+
+//@ func (a *AggregationProcess) GetExpiryFromExpirePriorityQueue() (r)
+//@   requires inv: aggInv(a) && !a.mutex.held && !a.mutex.rheld
+//@   ensures  earliest: len(a.expirePriorityQueue) > 0 ==> (forall i in [0, len(a.expirePriorityQueue)): minExp(a.expirePriorityQueue[0]) <= minExp(a.expirePriorityQueue[i]))
+//@   ensures  adv:  len(a.expirePriorityQueue) > 0 && MinExpiryTime + minExp(a.expirePriorityQueue[0]) - $lastNow >= 0 ==> r == MinExpiryTime + minExp(a.expirePriorityQueue[0]) - $lastNow
+//@   ensures  past: len(a.expirePriorityQueue) > 0 && MinExpiryTime + minExp(a.expirePriorityQueue[0]) - $lastNow < 0 ==> r == MinExpiryTime
+//@   ensures  idle: len(a.expirePriorityQueue) == 0 ==> r == (a.activeExpiryTimeout < a.inactiveExpiryTimeout ? a.activeExpiryTimeout : a.inactiveExpiryTimeout)
+//@   ensures  lock: !a.mutex.held
+//@   modifies a.mutex.held, $lastNow
+
+// ---------------------------------------------------------------------------
+// Correlation predicates (C07)
+// ---------------------------------------------------------------------------
+
+//@ pure recList(r entities.Record) []entities.InfoElementWithValue = r.(*baseRecord).orderedElementList
+//@ pure recNN(r entities.Record) bool = is(r, *dataRecord) && r.(*dataRecord) != nil && elemsWF(recList(r), len(recList(r)))
+//@ pure hasName(r entities.Record, name string) bool = exists j in [0, len(recList(r))): ie(recList(r)[j]).Name == name
+//@ // u8Of / strOf: value of the first element called name (when there is one, of that kind)
+//@ pure isFirst(r entities.Record, name string, j int) bool = firstNamed(recList(r), name, j)
+
+//@ func isCorrelationRequired(flowType, record) (r)
+//@   requires rec: recNN(record)
+//@   requires kinds: (forall j in [0, len(recList(record))): (ie(recList(record)[j]).Name == "egressNetworkPolicyRuleAction" || ie(recList(record)[j]).Name == "ingressNetworkPolicyRuleAction") ==> dt(recList(record)[j]) == Unsigned8)
+//@   ensures  notinter: flowType != FlowTypeInterNode ==> !r
+//@   ensures  egress: flowType == FlowTypeInterNode ==> (forall j in [0, len(recList(record))): isFirst(record, "egressNetworkPolicyRuleAction", j)
+//@                    && (recList(record)[j].(*Unsigned8InfoElement).value == NetworkPolicyRuleActionDrop || recList(record)[j].(*Unsigned8InfoElement).value == NetworkPolicyRuleActionReject) ==> !r)
+//@   ensures  ingress: flowType == FlowTypeInterNode ==> (forall j in [0, len(recList(record))): isFirst(record, "ingressNetworkPolicyRuleAction", j)
+//@                    && recList(record)[j].(*Unsigned8InfoElement).value == NetworkPolicyRuleActionReject ==> !r)
+//@   ensures  required: flowType == FlowTypeInterNode
+//@                    && (forall j in [0, len(recList(record))): isFirst(record, "egressNetworkPolicyRuleAction", j) ==>
+//@                          recList(record)[j].(*Unsigned8InfoElement).value != NetworkPolicyRuleActionDrop && recList(record)[j].(*Unsigned8InfoElement).value != NetworkPolicyRuleActionReject)
+//@                    && (forall j in [0, len(recList(record))): isFirst(record, "ingressNetworkPolicyRuleAction", j) ==>
+//@                          recList(record)[j].(*Unsigned8InfoElement).value != NetworkPolicyRuleActionReject) ==> r
+//@   noeffect
+
+//@ // podSet(r, name): the record's first element called name holds a non-empty string
+//@ pure podSet(r entities.Record, name string) bool = exists j in [0, len(recList(r))): isFirst(r, name, j) && strval(recList(r)[j]) != ""
+//@ pure podKinds(r entities.Record) bool = forall j in [0, len(recList(r))):
+//@     (ie(recList(r)[j]).Name == "sourcePodName" || ie(recList(r)[j]).Name == "destinationPodName") ==> dt(recList(r)[j]) == String
+//@ pure fromSrc(r entities.Record) bool = podSet(r, "sourcePodName") && !podSet(r, "destinationPodName")
+//@ pure fromDst(r entities.Record) bool = podSet(r, "destinationPodName") && !podSet(r, "sourcePodName")
+
+//@ func isRecordFromSrc(record) (r)
+//@   requires rec: recNN(record) && podKinds(record)
+//@   ensures  src: r <==> fromSrc(record)
+//@   noeffect
+//@
+//@ func isRecordFromDst(record) (r)
+//@   requires rec: recNN(record) && podKinds(record)
+//@   ensures  dst: r <==> fromDst(record)
+//@   noeffect
+//@
+//@ func areRecordsFromSameNode(record1, record2) (r)
+//@   requires rec: recNN(record1) && podKinds(record1) && recNN(record2) && podKinds(record2)
+//@   ensures  same: r <==> (fromSrc(record1) && fromSrc(record2)) || (fromDst(record1) && fromDst(record2))
+//@   noeffect
+
+// ---------------------------------------------------------------------------
+// addOrUpdateRecordInMap (C06: map <-> queue invariant; C07: readiness rules)
+// ---------------------------------------------------------------------------
+
+//@ // elemValues: the only state the aggregation helpers write in an existing record: the values of its elements
+//@ // (the setters used are SetUnsigned8/16/32/64Value, SetSigned32Value, SetStringValue, SetIPAddressValue)
+
+//@ func (a *AggregationProcess) correlateRecords(incomingRecord, existingRecord) (err)
+//@   requires rec: recNN(incomingRecord) && recNN(existingRecord)
+//@   ensures  err: err == nil
+//@   modifies recList(existingRecord)[*].(*StringInfoElement).value, recList(existingRecord)[*].(*Unsigned8InfoElement).value,
+//@            recList(existingRecord)[*].(*Unsigned16InfoElement).value, recList(existingRecord)[*].(*Signed32InfoElement).value,
+//@            recList(existingRecord)[*].(*IPAddressInfoElement).value
+//@   trusted
+
+//@ func (a *AggregationProcess) aggregateRecords(incomingRecord, existingRecord, fillSrcStats, fillDstStats) (err)
+//@   requires rec: recNN(incomingRecord) && recNN(existingRecord)
+//@   modifies recList(existingRecord)[*].(*StringInfoElement).value, recList(existingRecord)[*].(*Unsigned8InfoElement).value,
+//@            recList(existingRecord)[*].(*Unsigned32InfoElement).value, recList(existingRecord)[*].(*Unsigned64InfoElement).value,
+//@            recList(existingRecord)[*].(*DateTimeSecondsInfoElement).value
+//@   trusted
+
+//@ func (a *AggregationProcess) addFieldsForStatsAggregation(record, fillSrcStats, fillDstStats) (err)
+//@   requires rec: recNN(record)
+//@   ensures  rec: recNN(record)
+//@   modifies record.(*dataRecord).len, record.(*dataRecord).fieldCount, record.(*dataRecord).orderedElementList, recList(record)[*]
+//@   trusted
+
+//@ func (a *AggregationProcess) addFieldsForThroughputCalculation(record, fillSrcStats, fillDstStats) (err)
+//@   requires rec: recNN(record)
+//@   ensures  rec: recNN(record)
+//@   modifies record.(*dataRecord).len, record.(*dataRecord).fieldCount, record.(*dataRecord).orderedElementList, recList(record)[*]
+//@   trusted
+
+//@ pure flowKinds(r entities.Record) bool = podKinds(r) && (forall j in [0, len(recList(r))):
+//@       ((ie(recList(r)[j]).Name == "egressNetworkPolicyRuleAction" || ie(recList(r)[j]).Name == "ingressNetworkPolicyRuleAction" || ie(recList(r)[j]).Name == "flowType") ==> dt(recList(r)[j]) == Unsigned8))
+
+//@ func (a *AggregationProcess) addOrUpdateRecordInMap(flowKey, record, isIPv4) (err)
+//@   requires inv:  aggInv(a) && !a.mutex.held && !a.mutex.rheld && flowKey != nil
+//@   requires rec:  recNN(record) && flowKinds(record)
+//@   requires recs: forall k: has(a.flowKeyRecordMap, k) ==> recNN(a.flowKeyRecordMap[k].Record) && flowKinds(a.flowKeyRecordMap[k].Record)
+//@   requires newkey: forall i in [0, len(a.expirePriorityQueue)): a.expirePriorityQueue[i].flowKey != flowKey || has(a.flowKeyRecordMap, mapkey(*flowKey))
+//@   ensures  inv:  aggInv(a)
+//@   ensures  held: err == nil ==> has(a.flowKeyRecordMap, mapkey(*flowKey))
+//@   ensures  lock: !a.mutex.held
+//@   modifies *
